@@ -18,7 +18,7 @@ freshly issued one: abandoning it and calling `recv` again is the same as pollin
 theorem C14_fq_recv_stateless (w : World) (sid : Nat) (w' : World) (f' : FutSt)
     (h : pollFut w (.recv sid) = (w', f', .pending)) : f' = .recv sid := by
   simp only [pollFut] at h
-  generalize recvPoll 64 w sid = r at h
+  generalize recvPoll (recvFuel w sid) w sid = r at h
   obtain ⟨w1, o⟩ := r
   cases o with
   | pending => simp at h; exact h.2.symm
